@@ -369,9 +369,10 @@ def plan(tier):
                 for si in range(4):
                     ts.append(('compose', 3, oi, ctx, (1, 2, 3), si, 4, None))
             ts.append(('autoref', 3, oi, 0, 1, None))
+        # n = 4: 1 408 substitutions per function; every order, one eighth of the functions per
+        # order (a different eighth for each order, so all functions occur in three orders)
         for oi in range(24):
-            for si in range(8):
-                ts.append(('cr', 4, oi, ('K0', 'K1')[oi % 2], si, 8, None))
+            ts.append(('cr', 4, oi, ('K0', 'K1')[oi % 2], oi % 8, 8, None))
         for oi in range(0, 24, 5):
             for si in range(16):
                 ts.append(('compose', 4, oi, 'K0', (2,), si, 16, None))
